@@ -228,14 +228,25 @@ def detail(rej):
         return cls[p - 1] if 1 <= p <= t["n"] else "none"
     home = {"C05 cell-home": ("Cell", "Row"), "C05 row-home": ("Row", "Table"), "C05 item-home": ("Item", "ItemList")}
     inside = {"C05 table-kids": ("Table", ("Row", "Caption")), "C05 row-kids": ("Row", ("Cell",)), "C05 list-kids": ("ItemList", ("Item",))}
+    def since(pred):
+        """the pass after which the offending shape is first seen in this trace (diagnostic)"""
+        for s in rej["trace"]["snaps"][:rej["l"]]:
+            if not s["same"] and pred(s):
+                return s["pass"]
+        return "?"
     if c in home:
         k, want = home[c]
-        bad = sorted(set(pc(i) for i in range(t["n"]) if cls[i] == k and pc(i) != want))
-        return "%s under %s" % (k, "/".join(bad))
+
+        def pred(s):
+            return any(s["cls"][i] == k and not (1 <= s["par"][i] <= s["n"] and s["cls"][s["par"][i] - 1] == want) for i in range(s["n"]))
+        return "%s outside %s since %s" % (k, want, since(pred))
     if c in inside:
         k, ok = inside[c]
+
+        def pred(s):
+            return any(s["cls"][i] == k and any(s["cls"][x - 1] not in ok for x in s["kids"][i]) for i in range(s["n"]))
         bad = sorted(set(cls[x - 1] for i in range(t["n"]) if cls[i] == k for x in kids[i] if cls[x - 1] not in ok))
-        return "%s lists %s" % (k, "/".join(bad))
+        return "%s lists %s since %s" % (k, "/".join(bad), since(pred))
     if c == "C05 parent-links":
         bad = sorted(set("%s listed by %s has parent %s" % (cls[x - 1], cls[i], pc(x - 1)) for i in range(t["n"]) for x in kids[i] if par[x - 1] != i + 1))
         return "; ".join(bad[:3])
